@@ -1,5 +1,5 @@
 """C14 — stringify is a faithful, stable inverse of parse (DESIGN.md §9 C14)."""
-import html.entities, json
+import html.entities, json, re
 from . import core, tmplgen as tg, mutate, render, update as up, exprgen as eg
 
 THM_EXPR = [
@@ -367,6 +367,15 @@ def run(chk):
             srcs.append('<block wx:for="{{l}}">%s%s</block><v wx:if="{{c}}">%s%s</v><v wx:else>%s%s</v>' % (first, rest, first, rest, first, rest))
             srcs.append('<template name="t9">%s%s</template><template is="t9" data="{{a, b}}"/>' % (first, rest))
             nshape += 3
+    # script modules (round 10, C14-12): their names are declared by the <wxs> tag itself and are never mangled; used in the main template, inside
+    # wx:for / slot scopes (which ARE mangled) and inside <template name> bodies
+    for t_ in ['<wxs module="fmt">exports.price=function(x){return "$"+x}; exports.k="K"</wxs><view class="{{fmt.k}}">{{ fmt.price(a) }}</view>',
+               '<wxs module="m1">exports.f=function(x){return "["+x+"]"}</wxs><view wx:for="{{l}}">{{m1.f(item)}}|{{index}}</view>{{m1.f(b)}}',
+               '<wxs module="m1">exports.f=function(x){return "["+x+"]"}</wxs><template name="t8"><v>{{m1.f(a)}}</v></template><template is="t8" data="{{a}}"/>{{m1.f(b)}}',
+               '<wxs module="u">exports.id="U"</wxs><wxs module="w">exports.id="W"</wxs><cmp-x><view slot:v wx:for="{{l}}" wx:for-item="it">{{u.id}}{{v}}{{it}}{{w.id}}</view></cmp-x>{{w.id}}{{u.id}}',
+               '<wxs module="item">exports.id="M"</wxs><view wx:for="{{l}}">{{item}}</view><v>{{item.id}}</v>']:
+        srcs.insert(0, t_)
+        nshape += 1
     # scope names the printer re-derives: `slot:` references on <block> and on elements printed self-closing, before / around wx:for and element references
     for t_ in ['<cmp-x><block slot:v><view wx:for="{{l}}">{{item}}|{{v}}|{{index}}</view></block></cmp-x>',
                '<cmp-x><block slot:a><view slot:b>{{b}}|{{a}}</view><v>{{a}}</v></block><v>{{a}}</v></cmp-x>',
@@ -471,7 +480,7 @@ def run(chk):
                 chk.violation("input", "the re-parsed printed template renders / updates differently from the original", classification=cls,
                               template=srcs[i][:3000], printed=s1[:3000], steps=steps, original=ta, reparsed=tb)
     # ---- with scope-name mangling -------------------------------------------------------------------------
-    msrcs = [srcs[i] for i in range(0, min(n, len(srcs)), 3) if i % 4 != 3]
+    msrcs = [s_ for s_ in srcs if "<wxs module=" in s_ and len(s_) < 600][:40] + [srcs[i] for i in range(0, min(n, len(srcs)), 3) if i % 4 != 3]
     mouts = core.run_harness([core.req("strmap", s_, "1") for s_ in msrcs], timeout=3600)
     greqs, gmeta = [], []
     for s_, a in zip(msrcs, mouts):
@@ -485,6 +494,10 @@ def run(chk):
         greqs.append(core.req("group", json.dumps({"files": [["p", o["output"]]]})))
         gmeta.append((s_, o["output"]))
     gouts = core.run_harness(greqs, timeout=3600) if greqs else []
+    plain_of = {}
+    for s_, a in zip(msrcs, core.run_harness([core.req("strmap", s_, "0") for s_ in msrcs], timeout=3600)):
+        if not (a.startswith("PANIC") or a == "bad-op"):
+            plain_of[s_] = json.loads(a)["output"]
     rreqs2, rmeta2 = [], []
     for k, (s_, printed) in enumerate(gmeta):
         a, b = gouts[2 * k], gouts[2 * k + 1]
@@ -503,6 +516,14 @@ def run(chk):
         ta = [up.project_state(x["tree"]) for x in a.get("snapshots", [])] if "error" not in a else {"error": a["error"]}
         tb = [up.project_state(x["tree"]) for x in b.get("snapshots", [])] if "error" not in b else {"error": b["error"]}
         chk.case(("mangled", s_), nontrivial="_$" in printed)
+        # a script module is declared by its <wxs module="…"> tag, which is printed verbatim: a use of it must never be printed as a mangled name
+        # (what D54 records concerns wx:for / slot scope names only)
+        mods = set(re.findall(r'<wxs module="([^"]+)"', printed))
+        plain = plain_of.get(s_)
+        stolen = mangled_module_uses(plain, printed, mods) if plain is not None and mods else []
+        if stolen:
+            chk.violation("input", f"scope-name mangling renamed the uses of the script module(s) {stolen}: the <wxs> tag still declares the source name",
+                          classification="script-module-name-mangled", template=s_[:3000], printed=printed[:3000])
         if json.dumps(static_events(drop_empty_text(ta))) != json.dumps(static_events(drop_empty_text(tb))):
             cls = "mangled-scope-names-not-declared" if "_$" in printed else "behaviour-mangled"
             if cls == "behaviour-mangled" and \
@@ -515,6 +536,22 @@ def run(chk):
     chk.bump("oracle:round-trips", len(meta))
     chk.bump("oracle:behaviour-compared", len(rmeta))
     chk.bump("oracle:mismatches", nb)
+
+
+def mangled_module_uses(plain, mangled, mods):
+    """source names that the mangled print replaces by `_$N` although they are script modules and no wx:for / slot: scope of that name is declared"""
+    ident = re.compile(r"[A-Za-z_$][\w$]*")
+    a, b = ident.findall(plain), ident.findall(mangled)
+    if len(a) != len(b) or ident.sub("\0", plain) != ident.sub("\0", mangled):
+        return []          # not the same text up to identifiers: judged by the behaviour comparison
+    renamed = {x for x, y in zip(a, b) if x != y and re.fullmatch(r"_\$\d+", y)}
+    out = []
+    for m in sorted(renamed & mods):
+        declared = re.search(r'wx:for-(item|index)="%s"|slot:[\w-]+="%s"|slot:%s[\s/>=]' % (re.escape(m), re.escape(m), re.escape(m)), plain) or \
+            (m in ("item", "index") and "wx:for=" in plain)
+        if not declared:
+            out.append(m)
+    return out
 
 
 def replay(chk, path):
